@@ -418,7 +418,7 @@ def ctorWith (item : Item) (variant : Nat) (vals : List String) : String :=
   | .named => path ++ " { " ++ ", ".intercalate ((fs.fields.zip vals).map fun (p : Field × String) => s!"{p.1.name.getD "_"}: {p.2}") ++ " }"
 
 /-- `fn show(x: &X) -> String`: variant index and field values -/
-def showFn (item : Item) (fieldFmt : String) : String :=
+def showFn (item : Item) (fieldFmt : String) (inst : String := "R") : String :=
   let arm (path : String) (fs : Fields) (i : Nat) : String :=
     let n := fs.fields.length
     let binds := (List.range n).map fun k => s!"f{k}"
@@ -439,7 +439,7 @@ def showFn (item : Item) (fieldFmt : String) : String :=
     | .struct_ st => !st.generics.params.isEmpty
     | .enum_ e => !e.generics.params.isEmpty
     | _ => false
-  s!"pub fn show(x: &X{if gen then "<R>" else ""}) -> String \{ {body} }\n"
+  s!"pub fn show(x: &X{if gen then "<" ++ inst ++ ">" else ""}) -> String \{ {body} }\n"
 
 def showVal {V} [ToString V] (item : Item) (v : Val V) : String :=
   let n := (shapeFields item v.variant).fields.length
@@ -573,7 +573,8 @@ def cloneRunProgram (c : Case) (modName : String) : String × List String :=
     (body, exp)
   | none => ("", [])
 
-/-- a random operator item (struct over `M` fields) -/
+/-- a random operator item: a struct over `M` fields, concrete or generic over the field type, with `bound(..)`
+arguments on fields (they change the where-clauses only: never the calls) -/
 def genOpsRunCase (seed idx : Nat) : Case := runGen seed idx do
   let useDerive ← chance 1 3
   let k ← pickW [(1, FieldsKind.unit), (3, .unnamed), (3, .named)]
@@ -585,12 +586,29 @@ def genOpsRunCase (seed idx : Nat) : Case := runGen seed idx do
   let un ← pickW [(2, ([] : List String)), (1, ["Neg"]), (1, ["Not"]), (1, ["Not", "Neg"])]
   let traits := (ops.zip withAssign).flatMap (fun (o, a) => o.str :: (if a then [o.str ++ "Assign"] else [])) ++ un
   let args := argsOfTraits traits
-  let fields : Fields := if k == .unit then { kind := .unit } else
-    { kind := k, fields := (List.range n).map fun i =>
-        { name := if k == .named then some (["a", "b", "c", "d"].getD i "z") else none, ty := Ty.simple "M" } }
-  pure { id := s!"opsRun/{seed}/{idx}", tags := [s!"fields={n}"],
+  let generic ← chance 1 3
+  let tys ← (List.range n).mapM fun _ => do
+    if generic && (← chance 2 3) then pure tyT else pure (Ty.simple "M")
+  let generic := generic && tys.any (·.toks == tyT.toks)
+  let tys := if generic then tys else tys.map fun _ => Ty.simple "M"
+  let boundAttr (ty : Ty) : Gen (List Attr) := do
+    let isT := ty.toks == tyT.toks
+    let t ← pick traits
+    let b ← if isT then pickW [(6, (none : Option (List BoundArg))), (2, some [.ty tyT]), (1, some [.dots]), (1, some [.ty tyT, .dots])]
+            else pickW [(8, (none : Option (List BoundArg))), (1, some []), (1, some [.dots])]
+    match b with
+    | none => pure []
+    | some b =>
+      if ← chance 1 2 then pure [.deriveEx { items := [{ trait_ := t, args := some (some b, false) }] }]
+      else pure [.deriveEx { items := [{ trait_ := t }], bound := some b }]
+  let fs ← (tys.zipIdx).mapM fun (ty, i) => do
+    let attrs ← boundAttr ty
+    pure ({ attrs, name := if k == .named then some (["a", "b", "c", "d"].getD i "z") else none, ty } : Field)
+  let fields : Fields := if k == .unit then { kind := .unit } else { kind := k, fields := fs }
+  let generics : Generics := if generic then { params := [.ty "T" [] none] } else {}
+  pure { id := s!"opsRun/{seed}/{idx}", tags := [s!"fields={n}", s!"generic={generic}"],
          entry := if useDerive then .derive else .attr args,
-         item := .struct_ { attrs := if useDerive then [.deriveEx args] else [], name := "X", fields } }
+         item := .struct_ { attrs := if useDerive then [.deriveEx args] else [], name := "X", generics, fields } }
 
 def opEvStr (kind : Kind) (x y : Val String) (e : OpEv) : String :=
   match kind with
@@ -628,7 +646,7 @@ def opsRunProgram (c : Case) (modName : String) : String × List String :=
            s!"{modName} {u.str} {refCh l} {showVal c.item z} | {";".intercalate (tr.map (opEvStr o.kind x y))} | {showVal c.item x}")
       | _ => []
     | _ => []
-  let body := s!"pub mod {modName} \{ use super::*;\n#[derive(Debug, Clone, PartialEq)] {rustItem c}\n{showFn c.item "@.0"}pub fn run() \{\n" ++
+  let body := s!"pub mod {modName} \{ use super::*;\n#[derive(Debug, Clone, PartialEq)] {rustItem c}\n{showFn c.item "@.0" "M"}pub fn run() \{\n" ++
     String.join (lines.map (·.1)) ++ "}\n}\n"
   (body, lines.map (·.2))
 
